@@ -431,6 +431,60 @@ fn poly_ops<F: FftField + PrimeField>(cx: &mut Ctx) {
     }
 }
 
+/// the remaining data-parallel loops of ark-poly: sparse univariate scalar multiple, multivariate
+/// sparse evaluation (`.sum()` of `.product()`s), dense multilinear extensions
+fn misc_poly_ops<F: PrimeField>(cx: &mut Ctx) {
+    use ark_poly::multivariate::{SparsePolynomial as MvPoly, SparseTerm, Term};
+    use ark_poly::univariate::SparsePolynomial as SpPoly;
+    use ark_poly::{DenseMVPolynomial, DenseMultilinearExtension};
+    let few = cx.few();
+    for &n in &[0usize, 1, 5, 40, 300] {
+        let mut idx = 0usize;
+        let terms: Vec<(usize, F)> = (0..n).map(|_| { idx += 1 + cx.rng.below(9) as usize; (idx, rnz(&mut cx.rng)) }).collect();
+        for k in [F::zero(), rnz(&mut cx.rng)] {
+            let show = |v: &[(usize, F)]| if v.is_empty() { "_".to_string() } else { v.iter().map(|(i, c)| format!("{:x}:{}", i, h(c))).collect::<Vec<_>>().join(",") };
+            let args = format!("{} {} {}", pm::<F>(), h(&k), show(&terms));
+            cx.emit("spscal", &few, &args, || {
+                let p = SpPoly::from_coefficients_vec(terms.clone());
+                let r = &p * k;
+                show(&r)
+            });
+        }
+    }
+    for &(nv, nt) in &[(1usize, 1usize), (3, 4), (5, 40), (8, 300), (12, 2000)] {
+        let terms: Vec<(F, Vec<(usize, usize)>)> = (0..nt)
+            .map(|_| {
+                let k = cx.rng.below(4) as usize;
+                let mut vs: Vec<usize> = (0..k).map(|_| cx.rng.below(nv as u64) as usize).collect();
+                vs.sort();
+                vs.dedup();
+                (rnz(&mut cx.rng), vs.into_iter().map(|v| (v, 1 + cx.rng.below(5) as usize)).collect())
+            })
+            .collect();
+        let point: Vec<F> = rvec(&mut cx.rng, nv);
+        let ts = terms.iter().map(|(c, t)| format!("{}:{}", h(c), if t.is_empty() { "_".to_string() } else { t.iter().map(|(v, e)| format!("{:x}.{:x}", v, e)).collect::<Vec<_>>().join("*") })).collect::<Vec<_>>().join(";");
+        let args = format!("{} {:x} {} {}", pm::<F>(), nv, hl(&point), ts);
+        cx.emit("mveval", &few, &args, || {
+            let p = MvPoly::<F, SparseTerm>::from_coefficients_vec(nv, terms.iter().map(|(c, t)| (*c, SparseTerm::new(t.clone()))).collect());
+            h(&p.evaluate(&point))
+        });
+    }
+    for &nv in &[0usize, 1, 4, 7, 11] {
+        let a = rvec::<F>(&mut cx.rng, 1 << nv);
+        let b = rvec::<F>(&mut cx.rng, 1 << nv);
+        let f: F = rnz(&mut cx.rng);
+        for kind in ["add", "neg", "axpy"] {
+            let args = format!("{} {:x} {} {} {} {}", pm::<F>(), nv, kind, h(&f), hl(&a), hl(&b));
+            cx.emit("mle", &few, &args, || {
+                let ma = DenseMultilinearExtension::from_evaluations_vec(nv, a.clone());
+                let mb = DenseMultilinearExtension::from_evaluations_vec(nv, b.clone());
+                let r = match kind { "add" => &ma + &mb, "neg" => -ma, _ => { let mut m = ma; m += (f, &mb); m } };
+                hl(&r.evaluations)
+            });
+        }
+    }
+}
+
 // ---------------------------------------------------------------- curves
 fn sw_hdr<P: sw::SWCurveConfig>() -> String
 where
@@ -648,6 +702,8 @@ fn main() {
     if cx.want("poly") {
         poly_ops::<FDT65537>(cx);
         if th { poly_ops::<FDGoldilocks>(cx); }
+        misc_poly_ops::<FDT65537>(cx);
+        misc_poly_ops::<bls12_381::Fr>(cx);
     }
     if cx.want("msm") {
         // window size changes at 32 bases
